@@ -777,6 +777,23 @@ func generate(r *hx.Rng) []*kase {
 		add("L", codec, local, remote, fmtConns(conns), "-")
 	}
 
+	// a burst longer than the writer's flush batch (streamBufSize/2 = 8192 messages are encoded between two
+	// flushes): one replicate-phase run of 8500 appends, then a re-dial and 300 more
+	for i := 0; i < *nBurst; i++ {
+		local, remote := uint64(2), uint64(1)
+		gst := genGroups(r, local, remote, 1)[0]
+		gst.last = uint64(r.Pick(1000))
+		var ms []raftpb.Message
+		for k := 0; k < 8800; k++ {
+			n := r.Pick(2)
+			ms = append(ms, gst.app(r, gst.last, gst.term, n, func(t, ix uint64) raftpb.Entry {
+				return raftpb.Entry{Term: t, Index: ix, Data: []byte{byte(ix)}}
+			}))
+			gst.last += uint64(n)
+		}
+		add("L", "v2", local, remote, fmtConns([][]raftpb.Message{ms[:8500], ms[8500:]}), "-")
+	}
+
 	// two real transports over loopback HTTP
 	for i := 0; i < *nNet; i++ {
 		local, remote, phases, db := genNet(r)
